@@ -6,7 +6,10 @@ threads against steel-rc built from /repo, with a shadow model:
   * sequential mode (one operation at a time, exact shadow count per object): get_mut / make_mut /
     try_unwrap may grant exclusive access only when the shadow count is 1; a payload is never destroyed
     while its shadow count is positive; canary intact on every access;
-  * concurrent mode: canaries on every access, every payload destroyed exactly once at the end.
+  * concurrent mode: canaries on every access, every payload destroyed exactly once at the end;
+  * race mode: a targeted schedule family - the owner drops its last owner-side reference (the merge
+    compare-exchange loop) while another thread, holding a reference it cloned itself, clones and drops
+    in a tight loop; per round: payload intact at every access, destroyed exactly once.
 Oracles: the driver's own assertions natively (millions of operations, OS scheduling), and **Miri**
 (undefined behaviour, use-after-free and data-race detection, many scheduler seeds) on short histories."""
 import json
@@ -68,13 +71,14 @@ def main(tier):
     rep.coverage["rule"] = (
         "seeded histories over {new, clone, drop, move to another thread, get_mut, make_mut, try_unwrap, strong_count, "
         "explicit merge, thread exit} on <= 3 threads and a growing set of objects; sequential mode with an exact shadow "
-        "count, concurrent mode with schedule-independent assertions; natively (OS schedules) and under Miri (many scheduler "
+        "count, concurrent mode with schedule-independent assertions, race mode (owner's last drop against a foreign clone/drop loop); natively (OS schedules) and under Miri (many scheduler "
         "seeds); distinct by (seed, mode); non-trivial = the history produced objects that crossed threads")
     base = core.seed() * 1000
     total_ops = 0
     objects = 0
-    for mode in ("seq", "conc"):
-        res = run_native(binp, [base + i for i in range(nseeds)], hist, ops, mode)
+    for mode in ("seq", "conc", "race"):
+        # race: rounds of "owner drops its last owner-side reference while another thread clones/drops"
+        res = run_native(binp, [base + i for i in range(nseeds)], hist if mode != "race" else 20, ops if mode != "race" else (100 if tier == "quick" else 3000), mode)
         for s, rc, so, se in res:
             rep.count()
             m = re.search(r"RCMIRI seed=\d+ histories=\d+ ops=(\d+) objects=(\d+) violations=(\d+)", so)
@@ -98,16 +102,16 @@ def main(tier):
                 elif se == "timeout":
                     rep.inconclusive_note("native run timed out (seed %d, %s)" % (s, mode))
                 else:
-                    rep.violation("C05 driver run dies with exit status %s (memory corruption?)" % rc, "mode=%s seed=%d stderr=%s" % (mode, s, se[-300:]), replay)
+                    rep.violation("C05 driver run dies with exit status %s (memory corruption?) in %s mode" % (rc, mode), "mode=%s seed=%d stderr=%s" % (mode, s, se[-300:]), replay)
     rep.note("native_operations", total_ops)
     rep.note("native_objects", objects)
     # Miri
     env = dict(os.environ, CARGO_NET_OFFLINE="true")
     env["MIRIFLAGS"] = "-Zmiri-many-seeds=0..%d -Zmiri-disable-isolation" % miri_seeds
     t0 = time.time()
-    for mode in ("seq", "conc"):
+    for mode in ("seq", "conc", "race"):
         cmd = ["cargo", "+nightly", "miri", "run", "--offline", "--target-dir", os.path.join(core.BUILD, "rcmiri-miri"), "--",
-               str(core.seed()), str(miri_hist), str(miri_ops), mode, "tolerate-leaks"]
+               str(core.seed()), str(miri_hist), str(miri_ops if mode != "race" else 6), mode, "tolerate-leaks"]
         try:
             p = subprocess.run(cmd, cwd=CRATE, env=env, stdout=subprocess.PIPE, stderr=subprocess.PIPE, text=True, timeout=3000)
         except subprocess.TimeoutExpired:
@@ -118,8 +122,15 @@ def main(tier):
         rep.count(runs)
         ub = re.findall(r"error: Undefined Behavior: ([^\n]*)", p.stderr)
         race = re.findall(r"error: Undefined Behavior: Data race[^\n]*", p.stderr)
+        blocks = p.stderr.split("error: Undefined Behavior: ")[1:]
         for line in sorted(set(ub)):
             where = re.search(r"--> ([^\n:]+):\d+", p.stderr)
+            mine = [b for b in blocks if b.startswith(line)]
+            if line.startswith("Data race") and mine and all("Option<steel_rc::ThreadId>>" in b for b in mine):
+                # root cause rather than the thread names / access kinds Miri happens to report first
+                rep.violation("C05 Miri: Data race detected between (N) non-atomic accesses to RcWord::thread_id on thread `unnamed-N` and another thread",
+                              "mode=%s %s\n%s" % (mode, line, mine[0][:1500]), {"miri": cmd, "flags": env["MIRIFLAGS"]})
+                continue
             rep.violation("C05 Miri: %s" % re.sub(r"alloc\d+|0x[0-9a-f]+|\d+", "N", line)[:100],
                           "mode=%s at %s\n%s" % (mode, where.group(1) if where else "?", p.stderr[-1500:]), {"miri": cmd, "flags": env["MIRIFLAGS"]})
         for line in p.stdout.splitlines():
